@@ -38,6 +38,12 @@ Definition catch_zde {A} (r h : res A) : res A :=
   | _ => r
   end.
 Definition py_assert {A} (c : bool) (site : string) (k : res A) : res A := if c then k else Crash site.
+(* reports.error(id...) for every id of [errs] has happened, then <r> raised: both are kept *)
+Definition reported_then {A} (errs : list string) (r : res A) : res A :=
+  match r with
+  | Crash site => Err (errs ++ [String.append "raised " site])
+  | _ => r
+  end.
 
 (* value returned by an operator body together with the identifiers it passed to reports.error, in order *)
 Definition opres := (Z * list string)%type.
@@ -64,6 +70,78 @@ BINOPS = {
 CMPOPS = {ast.GtE: "Z.geb", ast.Gt: "Z.gtb", ast.LtE: "Z.leb", ast.Lt: "Z.ltb", ast.Eq: "Z.eqb"}
 
 
+MODULE = {"tree": None, "consts": {}, "helpers": {}, "helper_defs": []}
+
+
+def const_value(node, what):
+    """module-level integer constant expression: literals with + - * ** only"""
+    if isinstance(node, ast.Constant) and isinstance(node.value, int) and not isinstance(node.value, bool):
+        return node.value
+    if isinstance(node, ast.UnaryOp) and isinstance(node.op, ast.USub):
+        return -const_value(node.operand, what)
+    if isinstance(node, ast.BinOp) and isinstance(node.op, (ast.Add, ast.Sub, ast.Mult, ast.Pow)):
+        a, b = const_value(node.left, what), const_value(node.right, what)
+        if isinstance(node.op, ast.Pow):
+            need(0 <= b <= 64 and abs(a) <= 16, f"{what}: power out of the recognised range")
+            return a ** b
+        return {ast.Add: a + b, ast.Sub: a - b, ast.Mult: a * b}[type(node.op)]
+    need(False, f"{what}: not a constant integer expression: {ast.unparse(node)[:60]}")
+
+
+def module_const(name):
+    """NAME = <constant int expression> at module level, assigned exactly once and never rebound"""
+    if name in MODULE["consts"]:
+        return MODULE["consts"][name]
+    tree = MODULE["tree"]
+    hits = [n for n in ast.walk(tree) if isinstance(n, (ast.Assign, ast.AugAssign, ast.AnnAssign))
+            and any(isinstance(t, ast.Name) and t.id == name for t in (n.targets if isinstance(n, ast.Assign) else [n.target]))]
+    top = [n for n in tree.body if isinstance(n, ast.Assign) and len(n.targets) == 1 and isinstance(n.targets[0], ast.Name) and n.targets[0].id == name]
+    need(len(hits) == 1 and len(top) == 1, f"unknown name {name} (not a parameter, not a module constant assigned exactly once)")
+    need(not any(isinstance(n, (ast.Global, ast.Nonlocal)) and name in n.names for n in ast.walk(tree)), f"{name} is declared global somewhere")
+    v = const_value(top[0].value, name)
+    MODULE["consts"][name] = (v, ast.unparse(top[0].value))
+    return MODULE["consts"][name]
+
+
+def tr_helper(name):
+    """a plain module-level function of integers called from an operator body:
+         [if <cond>: raise Exc()]*  return <expr>      ->  Definition fn_<name> (params : Z) : res Z"""
+    if name in MODULE["helpers"]:
+        return MODULE["helpers"][name]
+    tree = MODULE["tree"]
+    fns = [n for n in tree.body if isinstance(n, ast.FunctionDef) and n.name == name]
+    need(len(fns) == 1, f"call of {name}: not a module-level function defined exactly once")
+    fn = fns[0]
+    need(not fn.decorator_list, f"helper {name}: decorated")
+    ar = fn.args
+    need(not ar.vararg and not ar.kwarg and not ar.kwonlyargs and not ar.defaults and ar.args, f"helper {name}: parameter list shape")
+    params = [x.arg for x in ar.args]
+    MODULE["helpers"][name] = len(params)     # registered first: recursion is not recognised
+    cx = Ctx("helper " + name, params)
+    body = [n for n in fn.body if not (isinstance(n, ast.Expr) and isinstance(n.value, ast.Constant))]
+
+    def blk(stmts):
+        need(stmts, f"helper {name}: falls off the end")
+        st, rest = stmts[0], stmts[1:]
+        if isinstance(st, ast.Return):
+            need(st.value is not None and not rest, f"helper {name}: return shape")
+            b, t = tr_expr(cx, st.value)
+            return wrap(b, f"(Ok {t})")
+        if isinstance(st, ast.If):
+            need(not st.orelse and len(st.body) == 1 and isinstance(st.body[0], ast.Raise), f"helper {name}: only `if c: raise Exc()` is recognised")
+            r = st.body[0]
+            need(r.cause is None and isinstance(r.exc, ast.Call) and isinstance(r.exc.func, ast.Name) and not r.exc.args and not r.exc.keywords,
+                 f"helper {name}: raise shape")
+            c = tr_cond(cx, st.test)
+            return f"(if {c} then Crash {coq_string(r.exc.func.id)} else {blk(rest)})"
+        need(False, f"helper {name}: statement shape {ast.unparse(st)[:80]}")
+
+    need(MODULE["helpers"][name] == len(params), "internal")
+    text = blk(body)
+    MODULE["helper_defs"].append(f"(* def {name}({', '.join(params)}) *)\nDefinition fn_{name} ({' '.join(params)} : Z) : res Z :=\n  {text}.\n")
+    return len(params)
+
+
 class Ctx:
     def __init__(self, fname, params):
         self.fname = fname
@@ -82,15 +160,28 @@ def zlit(v):
 def tr_expr(cx, node):
     """-> (list of (var, res-term) bindings to run first, pure Z term)."""
     if isinstance(node, ast.Name):
-        need(node.id in cx.vars, f"{cx.fname}: unknown name {node.id}")
+        if node.id not in cx.vars:
+            module_const(node.id)          # aborts when it is neither
         return [], node.id
     if isinstance(node, ast.Constant):
         need(isinstance(node.value, int) and not isinstance(node.value, bool), f"{cx.fname}: non-int constant {node.value!r}")
         return [], zlit(node.value)
     if isinstance(node, ast.Call):
-        need(isinstance(node.func, ast.Name) and node.func.id == "wait" and len(node.args) == 1 and not node.keywords,
-             f"{cx.fname}: only wait(x) calls are recognised, got {ast.unparse(node)[:80]}")
-        return tr_expr(cx, node.args[0])
+        need(isinstance(node.func, ast.Name) and not node.keywords and not any(isinstance(a, ast.Starred) for a in node.args),
+             f"{cx.fname}: call shape {ast.unparse(node)[:80]}")
+        if node.func.id == "wait":
+            need(len(node.args) == 1, f"{cx.fname}: wait() takes one argument")
+            return tr_expr(cx, node.args[0])
+        need(node.func.id not in cx.vars, f"{cx.fname}: call of a local name")
+        arity = tr_helper(node.func.id)
+        need(len(node.args) == arity, f"{cx.fname}: {node.func.id} called with {len(node.args)} arguments")
+        bs, ts = [], []
+        for a in node.args:           # arguments are evaluated left to right, then the call
+            b, t = tr_expr(cx, a)
+            bs += b
+            ts.append(t)
+        v = cx.fresh()
+        return bs + [(v, f"fn_{node.func.id} " + " ".join(ts))], v
     if isinstance(node, ast.UnaryOp):
         b, t = tr_expr(cx, node.operand)
         if isinstance(node.op, ast.USub):
@@ -147,7 +238,10 @@ def tr_block(cx, stmts, errs):
         need(not rest, f"{cx.fname}: code after return")
         b, t = tr_expr(cx, s.value)
         lst = "[" + "; ".join(coq_string(e) for e in errs) + "]"
-        return wrap(b, f"(Ok ({t}, {lst}))")
+        body = wrap(b, f"(Ok ({t}, {lst}))")
+        if b and errs:
+            body = f"(reported_then {lst} {body})"
+        return body
     sev = is_report(s)
     if sev is not None:
         need(sev == "error", f"{cx.fname}: reports.{sev} inside an operator body (only reports.error is recognised)")
@@ -250,6 +344,7 @@ def kw_bool(call, name, default, fname):
 
 def gen_operators():
     tree, _ = parse("pdpy11/operators.py")
+    MODULE.update({"tree": tree, "consts": {}, "helpers": {}, "helper_defs": []})
     # the decorator itself: how a signature is split and which defaults apply is checked literally
     deco = [n for n in tree.body if isinstance(n, ast.FunctionDef) and n.name == "operator"]
     need(len(deco) == 1, "def operator(...) not found exactly once")
@@ -317,7 +412,8 @@ def gen_operators():
                      f"mk_op_row {coq_string(char.lower())} {kind} {prec} {b(assoc == 'left')} {b(awaited)} {b(pure)} {b(token)} {coq_string(fname)}"))
     need(rows, "no @operator found")
     keyed, records = tr_wrap_impure(tree)
-    out = HEADER.format(src="pdpy11/operators.py") + PRELUDE + "\n" + "\n".join(defs) + "\n"
+    consts = "".join(f"(* {n} = {src} *)\nDefinition {n} : Z := {zlit(v)}.\n" for n, (v, src) in MODULE["consts"].items())
+    out = HEADER.format(src="pdpy11/operators.py") + PRELUDE + "\n" + consts + "\n" + "\n".join(MODULE["helper_defs"]) + "\n" + "\n".join(defs) + "\n"
     out += "(* wrap_impure: the value cached on an impure operator's token is reused only when the operands are the ones it\n"
     out += "   was computed from (keyed), and those operands are recorded with it (records_args) *)\n"
     out += f"Definition wrap_impure_keyed : bool := {'true' if keyed else 'false'}.\n"
